@@ -23,3 +23,23 @@ package powerstore
 //@     before[inside_the_lookback_window_the_base_epoch_is_still_the_bootstrap_epoch] arg(2) == nil && !called(Get, 1) && epochsInRange(ps) ==> arg(0) == ps.manifest.BootstrapEpoch - ps.manifest.EC.Finality
 //@     before[past_the_window_every_next_instance_uses_its_lookback_certificate] arg(2) == nil && res(Latest, 1) != nil && ps.manifest.InitialInstance + ps.manifest.CommitteeLookback <= 18446744073709551615
 //@          && res(Latest, 1).GPBFTInstance < 18446744073709551615 && res(Latest, 1).GPBFTInstance + 1 >= ps.manifest.InitialInstance + ps.manifest.CommitteeLookback ==> called(Get, 1)
+
+// EC's own answer is used when there is one; otherwise the table of the asked tipset is rebuilt from the base by applying
+// the recorded delta of EVERY epoch after the base up to and including the tipset's epoch — a missing delta is an error,
+// never a table of another epoch.
+//@ func (*Store).GetPowerTable
+//@   property C15
+//@   modifies auto
+//@   maypanic bounds the epochs between the base and a requested tipset are far fewer than 2^47 (the delta list is pre-sized by their number)
+//@   opaque basePowerTable
+//@   at return 1
+//@     before[ecs_own_table_is_used_when_there_is_one] arg(0) == res(GetPowerTable, 1, 0) && res(GetPowerTable, 1, 1) == nil && arg(1) == nil && argOf(GetPowerTable, 1, 1) == tsk
+//@   at get 1
+//@     before[the_delta_of_each_following_epoch_is_loaded] arg(2) == baseEpoch && baseEpoch <= targetEpoch && targetEpoch == res(Epoch, 1)
+//@   at loopback 1
+//@     before[one_delta_per_epoch_in_order_and_a_missing_one_is_an_error] res(get, 1, 1) == nil && len(diffs) == len(prev(diffs)) + 1 && (prev(baseEpoch) < 9223372036854775807 ==> baseEpoch == prev(baseEpoch) + 1)
+//@   at ApplyPowerTableDiffs 1
+//@     before[every_epoch_up_to_the_tipsets_is_covered_before_the_deltas_are_applied] baseEpoch >= targetEpoch
+//@     before[the_deltas_are_applied_to_the_base_table] arg(0) == basePt && basePt == res(basePowerTable, 1, 1)
+//@   at return 5
+//@     before[the_base_table_is_returned_only_for_the_base_epoch] arg(0) == basePt && targetEpoch == res(basePowerTable, 1, 0)
